@@ -20,7 +20,7 @@ META = {
         "seeded random stacks (depth 0-6, any order) of PoolDecorator, Logger, Standardiser (random limits) and "
         "Buffer over a recording pool; 1-40 operations (demand write incl. repeated equal values, read, change "
         "of the pool's supply/utilisation/allocation - utilisation above and below allocation -, outside change "
-        "of the pool's demand); logger names incl. default, levels 1-50, default and custom templates; "
+        "of the pool's demand); logger names incl. the default, the empty name (root logger) and other falsy-looking names, levels 1-50, default and custom templates; "
         "kind=template: message templates over known (value, demand, supply, utilisation, allocation, "
         "consumption, target) and unknown field names with several conversion types. "
         "Non-trivial = stack depth >= 2 or a template with >= 1 field; distinct by content."
@@ -50,7 +50,7 @@ def gen_case(rnd, spec):
         p = {}
         if kind == "Logger":
             if rnd.random() < 0.6:
-                p["name"] = "verif.c16.%s" % rnd.choice(["a", "b", "c.d", "Ünï"])
+                p["name"] = rnd.choice(["verif.c16.a", "verif.c16.b", "verif.c16.c.d", "verif.c16.Ünï", "", "0", "RecPool"])
             if rnd.random() < 0.6:
                 p["level"] = rnd.randint(1, 50)
             if rnd.random() < 0.4:
@@ -106,16 +106,20 @@ def execute(case, result):
     obj = pool
     capture = Capture(pool)
     hooked = []
+    saved = []
     try:
         for kind, p in reversed(case["stack"]):
             obj = classes[kind](obj, **p)
             layers.append((kind, p, obj))
             if kind == "Logger":
-                want_name = p.get("name") or type(obj.target).__qualname__
-                if obj.name != want_name:
-                    return [("Logger name is %r, expected %r" % (obj.name, want_name), None)]
-                lg = logging.getLogger(want_name)
+                configured = p["name"] if p.get("name") is not None else type(obj.target).__qualname__
+                lg = logging.getLogger(configured)  # the empty name is the root logger, as in the logging module
+                if obj.name != lg.name:
+                    for h in hooked:
+                        h.removeHandler(capture)
+                    return [("Logger configured with name %r reports logger %r, expected %r" % (p.get("name"), obj.name, lg.name), None)]
                 if lg not in hooked:
+                    saved.append((lg, lg.level, lg.propagate))
                     lg.setLevel(1)
                     lg.propagate = False
                     lg.addHandler(capture)
@@ -220,6 +224,9 @@ def execute(case, result):
     finally:
         for lg in hooked:
             lg.removeHandler(capture)
+        for lg, level, propagate in saved:
+            lg.setLevel(level)
+            lg.propagate = propagate
     return problems[:4]
 
 
